@@ -63,7 +63,7 @@ def plan(tier, seed):
 
 def mandatory(tier):
     out = [f"class/{n}" for n in X.ALL] + [f"kind/{k}" for k in X.KINDS] + ["groups/1", "groups/N"]
-    out += ["fresh_identity", "disp/own", "disp/resized", "disp/other_domain", "points/world", "pointset_transformer", "sequential", "multilevel", "generic", "image/equal", "image/same_domain", "image/other_domain", "matrix"]
+    out += ["fresh_identity", "forward/grid_flag/finer_grid/nonzero_boundary", "disp/own", "disp/resized", "disp/other_domain", "points/world", "pointset_transformer", "sequential", "multilevel", "generic", "image/equal", "image/same_domain", "image/other_domain", "matrix"]
     return out
 
 
@@ -170,6 +170,33 @@ def case(ctx, i):
         with torch.no_grad():
             yg = t(g.coords().unsqueeze(0), grid=True)
         ctx.close("forward_grid_flag_equals_point_map", np.moveaxis(yg.double().numpy() - g.coords().double().numpy(), -1, 1), u, TOL, key="forward/grid_flag", **info)
+        # grid=True on a finer grid of the same domain (outermost samples lie beyond the outermost samples of the
+        # transform grid when align_corners=False): still the same map as point evaluation
+        gf = g.resize(tuple(2 * int(k) + 1 for k in g.size()))
+        xf = gf.coords(align_corners=g.align_corners()).unsqueeze(0)
+        # the generated fields vanish on the boundary: shift them so that extrapolation beyond the outermost samples matters
+        shifted = []
+        if not t.linear and kind != "callable":
+            with torch.no_grad():
+                for prm in list(t.parameters()) + [b for n_, b in t.named_buffers() if n_ == "params"]:
+                    if prm.ndim >= 3 and prm.is_floating_point():
+                        off = 0.3 * 2.0 / float(min(g.size()))
+                        prm.add_(off)
+                        shifted.append((prm, off))
+            t.update()
+            if shifted:
+                ctx.bucket("forward/grid_flag/finer_grid/nonzero_boundary")
+        try:
+            with torch.no_grad():
+                yf1 = t(xf, grid=True).double().numpy()
+                yf0 = t(xf, grid=False).double().numpy()
+        finally:
+            with torch.no_grad():
+                for prm, off in shifted:
+                    prm.sub_(off)
+            t.update()
+        ctx.bucket("forward/grid_flag/finer_grid")
+        ctx.close("forward_grid_flag_on_finer_grid_equals_point_evaluation", yf1, yf0, 2 * TOL, key=f"forward/grid_flag_finer/{'linear' if t.linear else 'nonrigid'}", align_corners=g.align_corners(), **info)
     # ---------------- disp() on same-domain grid of another size
     with ctx.guard("disp(resized)", **info):
         ctx.bucket("disp/resized")
@@ -224,6 +251,14 @@ def case(ctx, i):
         ctx.close("pointset_transformer_equals_point_map", got3.detach(), want2, scale2, key="pointset_transformer", axes=a_in, to_axes=a_out, **info)
         pst0 = S.PointSetTransformer(t)
         ctx.close("pointset_transformer_default_is_forward", pst0(x).detach(), y, TOL, key="pointset_transformer", **info)
+        # defaults: output grid = input grid, output axes = input axes (also for points()): every option left out in turn
+        same_frame = href.points(Wy, WORLD, a_in)
+        stol = TOL * (float(np.abs(same_frame).max()) + 1.0) * 2
+        pin_t = torch.tensor(pin[None], dtype=torch.float64)
+        ctx.close("pointset_transformer_to_grid_defaults_to_input_grid", S.PointSetTransformer(t, grid=h, axes=Axes(a_in))(pin_t).detach(), same_frame, stol, key="pointset_transformer/defaults", axes=a_in, **info)
+        ctx.close("points_to_grid_defaults_to_input_grid", t.points(pin_t, grid=h, axes=Axes(a_in)).detach(), same_frame, stol, key="points/defaults", axes=a_in, **info)
+        want4 = href.points(Wy, WORLD, a_out)
+        ctx.close("pointset_transformer_to_axes_only", S.PointSetTransformer(t, grid=h, axes=Axes(a_in), to_axes=Axes(a_out))(pin_t).detach(), want4, TOL * (float(np.abs(want4).max()) + 1.0) * 2, key="pointset_transformer/defaults", axes=a_in, to_axes=a_out, **info)
     # ---------------- composites
     with ctx.guard("sequential", **info):
         ctx.bucket("sequential")
@@ -259,6 +294,18 @@ def case(ctx, i):
         with torch.no_grad():
             ug = np.moveaxis(((t(xg) - xg) + (t2(xg) - xg)).double().numpy(), -1, 1)
         ctx.close("multilevel_disp_adds_displacements", ml.disp().detach(), ug, TOL, key=f"multilevel/disp/{'linear' if ml.linear else 'nonrigid'}", second=n2, **info)
+        t3, _ = X.make(rng, n2, g, groups=G, kind="buffer")
+        ml3 = S.MultiLevelTransform(t, t2, t3)
+        with torch.no_grad():
+            ym3 = ml3(x).double().numpy()
+            want3 = (x + (t(x) - x) + (t2(x) - x) + (t3(x) - x)).double().numpy()
+            ug3 = np.moveaxis(((t(xg) - xg) + (t2(xg) - xg) + (t3(xg) - xg)).double().numpy(), -1, 1)
+        ctx.close("multilevel_of_three_adds_displacements", ym3, want3, TOL, key=f"multilevel/forward/{'linear' if ml3.linear else 'nonrigid'}", second=n2, members=3, **info)
+        ctx.close("multilevel_of_three_disp_adds_displacements", ml3.disp().detach(), ug3, TOL, key=f"multilevel/disp/{'linear' if ml3.linear else 'nonrigid'}", second=n2, members=3, **info)
+        if ml3.linear:
+            M3 = L.full(ml3.tensor().detach().double().numpy(), D)
+            ya3 = np.einsum("gij,mj->gmi", M3[:, :D, :D], x[0].double().numpy()) + M3[:, None, :D, D]
+            ctx.close("multilevel_of_three_tensor_equals_point_map", ya3, want3, TOL, key="multilevel/tensor", members=3, **info)
         with torch.no_grad():
             ugf = np.moveaxis((ml(xg, grid=True) - xg).double().numpy(), -1, 1)
         ctx.close("multilevel_grid_flag_adds_displacements", ugf, ug, TOL, key=f"multilevel/grid_flag/{'linear' if ml.linear else 'nonrigid'}", second=n2, **info)
